@@ -222,3 +222,14 @@ Section Kinds.
     destruct (parse_one wc false inp) as [|k rest]; [reflexivity|]. apply IH, Hr.
   Qed.
 End Kinds.
+
+(* a compound "CSI ? a ; b ; ... h/l" is the sequence of its parts: each parameter acts on the state
+   (and on the active buffer) the previous one left *)
+Lemma csi_modes_sequential (v : bool) ps1 ps2 t :
+  let f := if v then 104 else 108 in
+  exec_csi 63 (ps1 ++ ps2) f t = exec_csi 63 ps2 f (exec_csi 63 ps1 f t).
+Proof. cbv zeta. unfold exec_csi. destruct v; cbn [Z.eqb Pos.eqb]; apply fold_left_app. Qed.
+
+Lemma csi_mode_single (v : bool) p t :
+  exec_csi 63 [p] (if v then 104 else 108) t = dec_mode v p t.
+Proof. unfold exec_csi. destruct v; reflexivity. Qed.
